@@ -221,6 +221,40 @@ theorem fault_identity_gpf_refuted : ¬ FaultIdentityGpf := by
   have h1 := (hc.1 Sym.full Sym.sampled (fun p c _ => Sym.weighed p c) () Sym.pred Sym.poison).1
   exact hc.2 (h Sym.full Sym.sampled (fun p c _ => Sym.weighed p c) { measure := [false] } Sym.pred Sym.poison h1)
 
+/-! ### In-place calls `correct(b, b)` -/
+
+/-- Kalman, unscented and serial unscented corrections called in place: a consulted call
+    reporting "unavailable" leaves the object as it was (nothing is written before the last
+    validity test, so the self-assignment on the early return is harmless). -/
+theorem fault_identity_inplace_gauss (num : β → β → β) (s : Script) (b : β) :
+    (anyFailed (gaussInPlace (kfCorrect num) s b).log = true → (gaussInPlace (kfCorrect num) s b).val = b) ∧
+    (∀ v, anyFailed (gaussInPlace (ukfCorrect v num) s b).log = true → (gaussInPlace (ukfCorrect v num) s b).val = b) ∧
+    (∀ sizeOk k, (anyFailed (gaussInPlace (sukfCorrect sizeOk k num) s b).log = true ∨ sizeOk = false) →
+        (gaussInPlace (sukfCorrect sizeOk k num) s b).val = b) :=
+  ⟨fun h => ((fault_identity_kf num s b b).1 h).1,
+   fun v h => ((fault_identity_ukf v num s b b).1 h).1,
+   fun sizeOk k h => ((fault_identity_sukf sizeOk k num s b b).1 h).1⟩
+
+/-- The Gaussian particle correction called in place (as repaired by 5d39dcb: it works on a copy
+    of the predicted set): an unavailable likelihood restores the object to what it was. -/
+theorem fault_identity_gpf_inplace_partial (gauss : Script → β → β → R β) (sample : β → β)
+    (lik : Script → R (Option γ)) (hl : LikSpec lik) (weigh : β → β → γ → β) (s : Script) (b : β)
+    (h : anyFailed (lik (gauss s b b).script).log = true) :
+    (gpfCorrectInPlace gauss sample lik weigh s b).val = b :=
+  fault_identity_gpf_partial gauss sample lik hl weigh s b b h
+
+/-- What the guard repairs: without the copy, an in-place call with an unavailable likelihood
+    returned the object with the wrapped correction's Gaussians and redrawn positions (witness:
+    every call valid except the noise covariance at the likelihood's fetch). -/
+theorem gpf_inplace_unguarded_not_restored :
+    let s : Script := { noise := [true, false] }
+    anyFailed (gaussLik () (kfCorrect Sym.full s Sym.pred Sym.pred).script).log = true ∧
+    (gpfCorrectInPlaceUnguarded (kfCorrect Sym.full) Sym.sampled (gaussLik ()) (fun p c _ => Sym.weighed p c) s Sym.pred).val
+      = Sym.sampled (Sym.full Sym.pred Sym.pred) ∧
+    (gpfCorrectInPlace (kfCorrect Sym.full) Sym.sampled (gaussLik ()) (fun p c _ => Sym.weighed p c) s Sym.pred).val
+      = Sym.pred := by
+  decide
+
 /-! ### SIS: measurement acquisition fails ⇒ the correction is not attempted -/
 
 theorem sis_freeze_failure_no_correct (correct : Script → β → β → R β) (normalise : β → β)
